@@ -1,6 +1,6 @@
 #!/bin/bash
 # run every quick check sequentially; print rc and wall time per property
-cd /verif
+cd "$(dirname "$0")/.."
 tier=${1:-quick}
 for i in $(seq -w 1 20); do
   p=C$i
